@@ -55,6 +55,7 @@ class Contract:
         self.pure = False
         self.native = {}
         self.refines = []
+        self.use_abstract = set()  # callee method names resolved to the abstract contract of the base class
         self.assumes = []          # (text, expr): assumed at entry, listed in the evidence (never silently)
         self.for_class_obj = None
         self.stmt_hints = []       # (statement text, [lemma uses]) applied just before that statement
@@ -377,6 +378,9 @@ class Registry:
                 elif n == 'native':
                     for k in call.keywords:
                         c.native[k.arg] = k.value
+                elif n == 'use_abstract':
+                    for x in call.args:
+                        c.use_abstract.add(ast.literal_eval(x))
                 elif n == 'assumes':
                     c.assumes.append((ast.literal_eval(call.args[0]), call.args[1]))
                 elif n == 'refines':
@@ -425,6 +429,15 @@ class Registry:
                                                        'PrimitiveOrConstructedType', 'KnownMultiplierStringType'):
             return False
         return True
+
+    def abstract_contract_for(self, func):
+        if func.cls is not None:
+            for k in self.prog.mro(func.cls):
+                if isinstance(k, ClassInfo) and func.name in k.methods:
+                    c = self.contracts.get((k.module.relpath, k.name + '.' + func.name, None, None))
+                    if c is not None and c.abstract:
+                        return c
+        return None
 
     def contract_for(self, func, self_cls=None, label=None):
         rel, qual = func.module.relpath, func.qualname
